@@ -1,6 +1,41 @@
 import PgFdr.Json
+import PgFdr.Model.C15
 namespace PgFdr.Driver
 open Lean PgFdr
+
+def jresultRow (j : Json) : R C15.ResultRow := do
+  match j with
+  | .arr #[a, b, c, d] => pure { psmId := ← jstr a, peptide := ← jstr b, score := ← jstr c, pep := ← jstr d }
+  | _ => .error s!"expected [psmid, peptide, score, pep], got {j.compress}"
+
+def ofRows (rows : List (List String)) : Json := ofList ofStrs rows
+
+def ofMergeResult (r : Except String (List C15.Row)) : Json :=
+  match r with
+  | .ok rows => obj [("rows", ofRows rows)]
+  | .error e => ofErr e
+
+/-- `{"op":"merge","evidence":[[[field…]…]…],"results":[[[psmid,peptide,score,pep]…]…]}`
+    → `{"rows":[[field…]…]}` or `{"err": enum}`.
+    With `"results_raw":[[[field…]…]…]` (header row first) instead of `"results"` the result-file
+    header is resolved by the model as well. -/
+def handleMerge (j : Json) : R Json := do
+  let ev ← jlist (jlist jstrs) (← jget j "evidence")
+  match jgetOpt j "results_raw" with
+  | some rr =>
+    let raw ← jlist (jlist jstrs) rr
+    pure (ofMergeResult (C15.mergeRaw raw ev))
+  | none =>
+    let res ← jlist (jlist jresultRow) (← jget j "results")
+    pure (ofMergeResult (C15.merge res ev))
+
+/-- `{"op":"psmid","psmid":s,"peptide":s}` → `{"raw":…, "scan":n, "modseq":…}` or `{"err": enum}` -/
+def handlePsmId (j : Json) : R Json := do
+  let r : C15.ResultRow := { psmId := ← jstr (← jget j "psmid"), peptide := ← jstr (← jget j "peptide"), score := "", pep := "" }
+  match C15.parseResultRow r with
+  | .ok p => pure (obj [("raw", .str p.raw), ("scan", ofInt p.scan), ("modseq", .str p.modSeq)])
+  | .error e => pure (ofErr e)
+
 /-- protocol handlers of property C15: (op name, handler) -/
-def handlersC15 : List (String × (Json → R Json)) := []
+def handlersC15 : List (String × (Json → R Json)) := [("merge", handleMerge), ("psmid", handlePsmId)]
 end PgFdr.Driver
